@@ -151,6 +151,36 @@ static void run_probe(const json & c) {
     expect_eq(std::string("linear/precision-probe/coord-") + tname<P>() + "/store-" + tname<S>(), (double)v.at(x)[0], want, ctx);
 }
 
+template <std::size_t N, typename P, typename S>
+static void run_scaled(const json & c) {
+    // values v0, v1 in {+1, -1} scaled by 2^E with E the largest exponent of the narrower of (P, S): opposite signs differ by
+    // more than the largest finite value, yet every correct intermediate of the weighted sum is finite
+    using B = strided_t<N, 1, S>;
+    using L = cb::linear<B, cv::vector_d<P, N>>;
+    const int E = (std::is_same_v<P, float> || std::is_same_v<S, float>) ? 127 : 1023;
+    std::size_t axis = c["axis"].get<std::size_t>() - 1;
+    long D = c["D"].get<long>();
+    typename B::configuration_t ext; std::size_t prod = 1;
+    for (std::size_t k = 0; k < N; ++k) { ext[k] = 2; prod *= 2; }
+    covfie::field<B> base(covfie::make_parameter_pack(std::move(ext), typename B::backend_t::configuration_t{prod}));
+    typename covfie::field<B>::view_t bv(base);
+    for (std::size_t cell = 0; cell < prod; ++cell) {
+        covfie::array::array<std::size_t, N> cc;
+        for (std::size_t k = 0; k < N; ++k) cc[k] = (cell >> k) & 1;
+        bv.at(cc)[0] = (S)std::ldexp((double)(cc[axis] ? c["v1"].get<long>() : c["v0"].get<long>()), E);
+    }
+    covfie::field<L> f(base);
+    typename covfie::field<L>::view_t v(f);
+    covfie::array::array<P, N> x;
+    for (std::size_t k = 0; k < N; ++k) x[k] = 0;
+    x[axis] = (P)c["f"].get<long>() / (P)D;
+    double want = std::ldexp((double)c["num"].get<long>() / (double)D, E);
+    double got = (double)v.at(x)[0];
+    json ctx = {{"n", N}, {"axis", axis}, {"f", c["f"]}, {"v0", c["v0"]}, {"v1", c["v1"]}, {"scale_exponent", E}, {"coord", tname<P>()}, {"store", tname<S>()}};
+    ++g_checks;
+    if (!(got == want)) { json d = ctx; d["got"] = std::isfinite(got) ? json(got) : json(std::isnan(got) ? "nan" : "inf"); d["want"] = want; mismatch(std::string("linear/huge-magnitudes/coord-") + tname<P>() + "/store-" + tname<S>(), d); }
+}
+
 template <std::size_t N>
 static void run_n(const json & c, const std::map<std::vector<long>, json> & grids) {
     std::string kind = c["kind"];
@@ -165,6 +195,8 @@ static void run_n(const json & c, const std::map<std::vector<long>, json> & grid
             if (it == grids.end()) return;
             run_clamp<N, 3, float, float>(c, it->second); run_clamp<N, 1, double, double>(c, it->second); run_clamp<N, 2, double, float>(c, it->second);
         }
+    } else if (kind == "scaled") {
+        run_scaled<N, float, float>(c); run_scaled<N, double, double>(c); run_scaled<N, double, float>(c); run_scaled<N, float, double>(c);
     } else if (kind == "probe") {
         int L2 = c["logD"].get<int>();
         if (L2 <= 20) { run_probe<N, float, float>(c); run_probe<N, float, double>(c); run_probe<N, double, float>(c); }
